@@ -21,7 +21,8 @@ EXPLANATION = (
     "unwrap/expect/index/copy/swap_remove/allocation/shift calls) in the call-graph closure of the request entry "
     "points of both crates is discharged: input-independent, locally guarded by a must-fact, or covered by a reviewed "
     "invariant row whose machine-checkable requirement still holds; (V3) every raw read of the receive buffer is "
-    "dominated by a sufficient length fact, using the tie size == buf.len() established in the dispatch.")
+    "dominated by a sufficient length fact, using the tie size == buf.len() established in the dispatch."
+    ' Also: (V1) received-file COUNT classes (none / 0 / 1 / >= 2) under the must-facts of each accepting path of the vring-fd helper and of take_single_file; (V4) validator exactness for the decoded body types (C20/X2).')
 NOT_DECIDED = ("Panics inside third-party crates (vm-memory, virtio-queue, vmm-sys-util, std) called with wire-derived values "
                "(listed as assumptions); stack/heap exhaustion; aborts.")
 
